@@ -207,7 +207,7 @@ KINDS = {
     "C14": ["ViewEquiv", "Crash", "Sanitizer"],
     "C16": ["Find", "Crash"],
     "C17": ["Export", "Crash"],
-    "C18": ["Counters", "Crash"],
+    "C18": ["Counters", "WrapperPreservesResults", "Crash"],
 }
 
 
@@ -638,6 +638,9 @@ def task_replay_binary(dim, periodic, cap=64, variant="plain", runtime="omp"):
     if runtime == "specx":
         defs.append("RUNTIMEV=1")
         extra = ("-I" + os.path.join(vlib.HARNESS, "mock_specx"),)
+    if runtime == "starpu":
+        defs.append("RUNTIMEV=2")
+        extra = ("-I" + os.path.join(vlib.HARNESS, "mock_starpu"),)
     return build("replay_%s_%d_%d_%d%s" % (runtime, dim, int(periodic), cap, "_asan" if variant == "asan" else ""), "replay_omp.cpp", defs, variant=variant, extra=extra)
 
 
@@ -743,7 +746,7 @@ def taskruntime_on(run, name, gall, tier, pairs):
     return spath
 
 
-C03_KINDS = ["SameAsSequential", "Covered", "Crash", "Sanitizer", "WorkerKernelBound", "KernelPerWorker", "Arg", "ExecPreservesSymbolic", "WriteSets", "Counters"]
+C03_KINDS = ["SameAsSequential", "Covered", "Crash", "Sanitizer", "WorkerKernelBound", "KernelPerWorker", "RuntimeApi", "Arg", "ExecPreservesSymbolic", "WriteSets", "Counters"]
 
 
 def omp_configs(tier):
@@ -792,6 +795,15 @@ def check_c03(run):
         report_mismatches(run, "C03", "C03-" + name, pairs, [(k, re.sub(r"-(immediate|deferred|tlc)-.*$", "", key), "%s [%s]" % (t, key)) for k, key, t in mism], C03_KINDS)
         if gall:
             taskruntime_on(run, "C03-" + name + "-graphs", gall, run.tier, pairs)
+    # the StarPU executors through an API-compatible mock of starpu.h (handles, codelets, variadic starpu_insert_task, worker ids)
+    for name, consts in ([("starpu-1d-h5", fmm_constants(1, 5, POOL_1D_H5[:7], bss=(1, 2, 3, 20))), ("starpu-3d-h4", fmm_constants(3, 4, POOL_3D_H4[:5], bss=(1, 2, 20))),
+                          ("starpu-tsm-1d-h5", fmm_constants(1, 5, POOL_1D_H5[:4], mode="tsm", bss=(1, 2, 20)))]
+                         + ([] if run.tier == "quick" else [("starpu-2d-h4", fmm_constants(2, 4, POOL_2D_H4[:7], bss=(1, 2, 3, 20), hists=("full", "stages3"))),
+                                                             ("starpu-tsm-2d-h4", fmm_constants(2, 4, POOL_2D_H4[:4], mode="tsm", bss=(1, 2)))])):
+        pairs, mism, gall = omp_campaign(run, "C03-" + name, consts, run.tier, runtime="starpu", graphs=8)
+        report_mismatches(run, "C03", "C03-" + name, pairs, [(k, re.sub(r"-(immediate|deferred|tlc)-.*$", "", key), "%s [%s]" % (t, key)) for k, key, t in mism], C03_KINDS)
+        if gall:
+            taskruntime_on(run, "C03-" + name + "-graphs", gall, run.tier, pairs)
     # code -> spec: kernel-call traces of the OpenMP executors under seeded random schedules must respect the dataflow guards of Fmm.tla
     trace_campaign(run, "C03", run.tier, modes=(0, 1))
     # lifetime of captured variables: the same schedules on the AddressSanitizer build (detect_stack_use_after_return)
@@ -804,7 +816,7 @@ def check_c03(run):
                             "group buffers, actual accesses from the kernel callbacks) must satisfy Covered; a sample of graphs is explored by TLC (TaskRuntime.tla: NoRace, AllDone, "
                             "Covered => NoRace over all interleavings) and TLC's schedules are replayed through the mock runtime; an AddressSanitizer build repeats a subset")
     run.assumptions += FMM_ASSUME[:1] + ["the mock runtime implements the OpenMP dependence rules (its run orders are validated by TLC against TaskRuntime.tla); schedules are executed one task at a time, which is sound for result equality only together with NoRace/Covered on actual accesses",
-                                         "GCC 12 defines _OPENMP=201511, so `commute` expands to inout; the Specx executors run through an API-compatible mock of Legacy/SpRuntime.hpp (SpCommutativeWrite = mutual exclusion); StarPU executors are not covered (see DESIGN.md)"]
+                                         "GCC 12 defines _OPENMP=201511, so `commute` expands to inout; the Specx and StarPU executors run through API-compatible mocks of Legacy/SpRuntime.hpp and starpu.h (commutative write = mutual exclusion) feeding the same scheduler core; CUDA variants are not covered"]
 
 
 @check("C09", "model_checking")
@@ -1006,8 +1018,25 @@ def check_c19(run):
     cells = matrix_cells(run.tier)
     iters = 30 if run.tier == "quick" else 120
     total_scn, ran = matrix_run(run, cells, iters)
+    # the build configuration that enables OpenMP, Specx and StarPU at once (mock runtime headers): the selector header must compile
+    sel, err = build("selector", "selector.cpp", [], "plain", ("-UNDEBUG", "-I" + os.path.join(vlib.HARNESS, "mock_specx"), "-I" + os.path.join(vlib.HARNESS, "mock_starpu")))
+    if sel is None:
+        log_txt = open(err).read()[-3000:] if err and os.path.exists(err) else ""
+        first = [l for l in log_txt.splitlines() if "error" in l][:1]
+        run.violation("compile:selector-openmp-specx-starpu", "the algorithm selector does not compile with OpenMP, Specx and StarPU all enabled: %s" % (first or ["see log"])[0][:240],
+                      run.write_replay("compile-selector", {"kind": "selector", "log": log_txt}))
+    else:
+        rc, out, errtxt = run_bin(sel, [run.seed, iters], timeout=600)
+        mism, summary = parse_harness_output(out)
+        if summary is None:
+            run.violation("crash:selector", "selector unit aborted (exit %s): %s" % (rc, (errtxt or out)[-300:]), run.write_replay("crash-selector", {"kind": "selector", "stderr": errtxt[-2000:]}))
+        else:
+            total_scn += summary.get("scenarios", 0)
+            for kind, key, text in mism[:3]:
+                run.violation(kind + ":" + key, text, run.write_replay(kind + "-selector", {"kind": "selector", "key": key, "text": text}))
+            run.coverage["selector_selected"] = [l.split("=")[1] for l in out.splitlines() if l.startswith("INFO selected=")]
     run.coverage["evaluations"] = total_scn
-    run.coverage["distinct_nontrivial"] = len(cells)
+    run.coverage["distinct_nontrivial"] = len(cells) + 1
     run.coverage["translation_units"] = len(cells)
     run.coverage["translation_units_run"] = ran
     run.coverage["samples"] = [{"cell": c} for c in cells[:4]]
@@ -1016,7 +1045,7 @@ def check_c19(run):
                             "{sequential, OpenMP (real libgomp, 4 threads), target/source} x {2, 0 result values}; each unit must compile (assertions on) and run %d seeded random scenarios with a "
                             "counting kernel: exactly-once counts and index sums, stored-once / right-leaf / bit-exact data, export, rebuild preserving results and doubling them after a second pass; "
                             "quick = a covering subset, thorough = the full product" % iters)
-    run.assumptions += ["the build configuration that enables OpenMP, Specx and StarPU at once needs mock runtime headers and is reported separately (DESIGN.md)",
+    run.assumptions += ["the build configuration that enables OpenMP, Specx and StarPU at once is compiled against API-compatible mock runtime headers (harness/mock_specx, harness/mock_starpu)",
                         "this check decides by compilation + conformance runs generated from seeds, not by TLC: the configuration space is a space of programs; the exactly-once / construction / rebuild oracles are the closed forms proved on the model by C01/C06/C13"]
 
 
@@ -1099,6 +1128,14 @@ def cmd_replay(args):
         for key, text, _ in (hit or viol)[:10]:
             log("REPRODUCED %s: %s" % (key, text))
         return 1 if hit or viol else 0
+    if obj.get("kind") == "selector":
+        sel, err = build("selector", "selector.cpp", [], "plain", ("-UNDEBUG", "-I" + os.path.join(vlib.HARNESS, "mock_specx"), "-I" + os.path.join(vlib.HARNESS, "mock_starpu")))
+        if sel is None:
+            print(open(err).read()[-3000:])
+            return 1
+        rc, out, errtxt = run_bin(sel, [os.environ.get("VERIF_SEED", "1"), 30])
+        print(out[-2000:], errtxt[-500:])
+        return 1 if rc != 0 else 0
     if obj.get("kind") == "matrix":
         c = obj["cell"]
         name = "matrix_replay"
